@@ -414,7 +414,7 @@ func loadStage(abs string) *StageRec {
 func (p *Project) observe() *World {
 	skip := map[string]bool{".dud": true, ".runlog": true}
 	for _, s := range p.StageFs {
-		skip[s] = true
+		skip[filepath.Clean(s)] = true // the index may name a stage file as sub/../s.yaml
 	}
 	if rel, err := filepath.Rel(p.Root, p.CacheDir); err == nil && !strings.HasPrefix(rel, "..") {
 		skip[rel] = true
